@@ -64,7 +64,24 @@ class FollowLinks(Suite):
     def gen(self, rng, tier):
         n = {"quick": 2500, "thorough": 80000, "search": 500}[tier]
         ops = []
-        for _ in range(n):
+        for k in range(n):
+            if k % 1250 == 7:
+                # many links followed in ONE call (no per-call budget may run out): N requests, each a link (half of them two hops)
+                N = rng.choice([260, 300, 520])
+                D = lambda p: {"p": hx(p), "t": "dir", "uid": 0, "gid": 0, "mt": gen.MTIMES[0], "mode": 0o755}
+                L = lambda p, t: {"p": hx(p), "t": "symlink", "ln": hx(t), "uid": 0, "gid": 0, "mt": gen.MTIMES[0], "mode": 0o777}
+                tree = [D(b"bin"), D(b"lib")]
+                for i in range(N):
+                    nm = b"c%03d" % i
+                    if i % 2:
+                        tree += [L(b"bin/" + nm, b"../lib/" + nm), L(b"lib/" + nm, b"t")]
+                    else:
+                        tree += [L(b"bin/" + nm, b"../lib/t")]
+                tree.append({"p": hx(b"lib/t"), "t": "file", "size": 1, "uid": 0, "gid": 0, "mt": gen.MTIMES[0], "mode": 0o644})
+                tree.sort(key=lambda e: gen.pathkey(bytes.fromhex(e["p"])))
+                reqs = [b"bin/*"] if rng.random() < 0.5 else [b"bin/c%03d" % i for i in range(N)]
+                ops.append({"op": "followlinks", "src": {"kind": "mem", "tree": tree}, "paths": [hx(q) for q in reqs]})
+                continue
             tree, paths = link_tree(rng)
             reqs = []
             for _ in range(rng.randint(1, 3)):
@@ -111,8 +128,12 @@ class FollowLinks(Suite):
         if impl.get("timeout"):
             return Verdict(False, False, "FollowLinks did not terminate within 5 s")
         if impl.get("ferr"):
-            # an error return (e.g. a wildcard below a non-directory): the model does not predict error texts; only termination is demanded
-            return Verdict(True, None, "FollowLinks returned an error: %s" % impl["ferr"][:80])
+            # the one error the unchanged code returns: a wildcard expanded below something that is not a directory (the model does not
+            # predict it; the case is skipped). Any other error is a failure of "resolving always terminates and returns the set".
+            wild = any(c in bytes.fromhex(p) for p in op["paths"] for c in b"*?[")
+            if wild and "not a directory" in impl["ferr"] and "readdir" in impl["ferr"]:
+                return Verdict(True, None, "FollowLinks returned an error: %s" % impl["ferr"][:80])
+            return Verdict(False, False, "C18: FollowLinks failed: %s" % impl["ferr"][:200])
         agree = impl.get("out") == model.get("m")
         ok = model.get("spec_i")
         return Verdict(agree, ok, "impl=%s model=%s spec(impl)=%s %s" % (
